@@ -109,6 +109,9 @@ def form_builders():
     F['csr_shuffled'] = lambda A: (shuffled(sp.csr_matrix(A)), {})
     F['csc_shuffled'] = lambda A: (shuffled(sp.csc_matrix(A)), {})
     F['csr_int'] = lambda A: (sp.csr_matrix(A.astype(np.int64)), {}) if integral(A) else None
+    # single precision held by the caller (0, 1, 2.5 are exact in it)
+    for fmt in ('csr', 'csc', 'coo'):
+        F[fmt + '_f32'] = (lambda A, fmt=fmt: (getattr(sp, fmt + '_matrix')(A.astype(np.float32)), {}))
     return F
 
 
@@ -139,7 +142,8 @@ def matrix_of(shape, code):
 
 
 # ------------------------------------------------------------------------- adjacency / uc menus
-ADJ_RECS = [(o, s, v) for o in ('a', 'b') for s in ('x', 'y') for v in ('1', '2.5', '1e3', '0')]   # incl. zero-valued records
+# ids whose natural order differs from their string order (o9 < o10, 'o10' < 'o9'); incl. zero-valued records
+ADJ_RECS = [(o, s, v) for o in ('o10', 'o9') for s in ('s2', 's10') for v in ('1', '2.5', '1e3', '0')]
 ADJ_HEADER = '#OTU ID\tSampleID\tvalue'
 ADJ_CONTAINERS = ['list', 'list_nl', 'string', 'string_nl', 'stringio', 'filehandle']
 
